@@ -97,7 +97,21 @@ def local_single_defs(func: ast.AST) -> Dict[str, ast.AST]:
     a = func.args
     for p in a.posonlyargs + a.args + a.kwonlyargs:
         counts[p.arg] = counts.get(p.arg, 0) + 2
-    return {k: v for k, v in vals.items() if counts.get(k) == 1}
+    out = {k: v for k, v in vals.items() if counts.get(k) == 1}
+    out.update(_conditional_defs(func, counts))
+    return out
+
+
+def _conditional_defs(func: ast.AST, counts: Dict[str, int]) -> Dict[str, ast.AST]:
+    """`if c: x = A  else: x = B` (the only two bindings of x) is the definition x = A if c else B"""
+    out: Dict[str, ast.AST] = {}
+    for n in walk_no_nested(func):
+        if isinstance(n, ast.If) and len(n.body) == 1 and len(n.orelse) == 1 and isinstance(n.body[0], ast.Assign) and isinstance(n.orelse[0], ast.Assign):
+            a_, b_ = n.body[0], n.orelse[0]
+            if len(a_.targets) == 1 and len(b_.targets) == 1 and isinstance(a_.targets[0], ast.Name) and isinstance(b_.targets[0], ast.Name) and \
+                    a_.targets[0].id == b_.targets[0].id and counts.get(a_.targets[0].id) == 2:
+                out[a_.targets[0].id] = ast.IfExp(test=n.test, body=a_.value, orelse=b_.value)
+    return out
 
 
 class Subst(ast.NodeTransformer):
@@ -151,6 +165,8 @@ def all_local_defs(func: ast.AST) -> Dict[str, ast.AST]:
     for k, v in vals.items():
         if counts.get(k) == 1:
             defs.setdefault(k, v)
+    for k, v in _conditional_defs(func, counts).items():
+        defs.setdefault(k, v)
     return defs
 
 
@@ -314,6 +330,61 @@ def append_counts(body: List[ast.stmt], acc: str, is_append=None) -> Set[Tuple[i
 
     running, finished = seq(body, {0})
     return {(c, "fall") for c in running} | finished
+
+
+def iteration_paths(body: List[ast.stmt], acc: str, defs: Optional[Dict[str, ast.AST]] = None, limit: int = 256):
+    """Non-raising paths through one loop iteration: [(path condition as a sa.boolnf formula, number of appends to `acc`
+    (saturating at 3), exit kind)].  Tests are read after substituting `defs` (single-definition locals), so that a hoisted
+    sub-expression and its in-place use give the same atoms.  Nested loops that append make the count 3."""
+    from sa import boolnf as B
+    defs = defs or {}
+
+    def is_app(st):
+        return isinstance(st, ast.Expr) and isinstance(st.value, ast.Call) and isinstance(st.value.func, ast.Attribute) and \
+            st.value.func.attr == "append" and dotted(st.value.func.value) == acc
+
+    def seq(stmts, states):
+        finished = []
+        for st in stmts:
+            if not states:
+                break
+            if len(states) > limit:
+                raise AnalysisError("too many paths through one loop iteration")
+            if isinstance(st, ast.Raise):
+                states = []
+                break
+            if isinstance(st, (ast.Continue, ast.Break, ast.Return)):
+                kind = {ast.Continue: "continue", ast.Break: "break", ast.Return: "return"}[type(st)]
+                finished += [(c, n, kind) for c, n in states]
+                states = []
+                break
+            if isinstance(st, ast.If):
+                t = B.parse(substitute_locals(st.test, defs))
+                a, fa = seq(st.body, [(B.mk_and([c, t]), n) for c, n in states if B.satisfiable(B.mk_and([c, t]))])
+                b, fb = seq(st.orelse, [(B.mk_and([c, B.mk_not(t)]), n) for c, n in states if B.satisfiable(B.mk_and([c, B.mk_not(t)]))])
+                finished += fa + fb
+                states = a + b
+            elif isinstance(st, (ast.For, ast.While)):
+                if any(is_app(s) for s in ast.walk(st) if isinstance(s, ast.stmt)):
+                    states = [(c, 3, ) for c, n in states] + states
+            elif isinstance(st, ast.Try):
+                a, fa = seq(st.body + st.orelse, list(states))
+                finished += fa
+                nxt = a
+                for h in st.handlers:
+                    hb, fh = seq(h.body, list(states) + a)
+                    finished += fh
+                    nxt = nxt + hb
+                states = nxt
+            elif isinstance(st, ast.With):
+                states, fw = seq(st.body, states)
+                finished += fw
+            elif is_app(st):
+                states = [(c, min(3, n + 1)) for c, n in states]
+        return states, finished
+
+    running, finished = seq(body, [(B.T, 0)])
+    return [(c, n, "fall") for c, n in running] + finished
 
 
 class RuleProxy:
